@@ -1432,6 +1432,27 @@ M("SEED-C18-d", ["C18"], [("@patch", "seeded/C18-d/patch.diff", "")], ["C18/inva
 M("SEED-C19-d", ["C19"], [("@patch", "seeded/C19-d/patch.diff", "")], ["C19/order/disconnect_with/validate-first"])
 M("SEED-C20-d", ["C20"], [("@patch", "seeded/C20-d/patch.diff", "")], ["C20/owned/no-truncation"])
 
+# seeds of round 5 (a plausible clean-up or hardening with one hidden behavioural change; multi-connection / multi-step histories)
+M("SEED-C01-e", ["C01"], [("@patch", "seeded/C01-e/patch.diff", "")], ["C01/id-nz/returns-nonzero"])
+M("SEED-C02-e", ["C02"], [("@patch", "seeded/C02-e/patch.diff", "")], ["C02/limit/per-connection/maximum_packet_size"])
+M("SEED-C03-e", ["C03"], [("@patch", "seeded/C03-e/patch.diff", "")], ["C03/ANCHOR-LOST/rel/outbound:retained_removal"])
+M("SEED-C04-e", ["C04"], [("@patch", "seeded/C04-e/patch.diff", "")], ["C04/surfaced/drive_packet#1"])
+M("SEED-C05-e", ["C05"], [("@patch", "seeded/C05-e/patch.diff", "")], ["C05/wire/client-id-writer/reset"])
+M("SEED-C06-e", ["C06"], [("@patch", "seeded/C06-e/patch.diff", "")], ["C06/inc/retained-removal-reports-removal"])
+M("SEED-C07-e", ["C07"], [("@patch", "seeded/C07-e/patch.diff", "")], ["C07/tables/retained-removes-the-acknowledged-entry"])
+M("SEED-C08-e", ["C08"], [("@patch", "seeded/C08-e/patch.diff", "")], ["C08/latch/read_packet/fill_packet_reader#1"])
+M("SEED-C09-e", ["C09"], [("@patch", "seeded/C09-e/patch.diff", "")], ["C09/corr/properties"])
+M("SEED-C10-e", ["C10"], [("@patch", "seeded/C10-e/patch.diff", "")], ["C10/who/ping-timeout-cleared/note_outbound_activity"])
+M("SEED-C11-e", ["C11"], [("@patch", "seeded/C11-e/patch.diff", "")], ["C11/fatal/disconnect_with/write_all#1"])
+M("SEED-C12-e", ["C12"], [("@patch", "seeded/C12-e/patch.diff", "")], ["C12/compact/no-shortcut"])
+M("SEED-C13-e", ["C13"], [("@patch", "seeded/C13-e/patch.diff", "")], ["C13/atomic/subscribe"])
+M("SEED-C14-e", ["C14"], [("@patch", "seeded/C14-e/patch.diff", "")], ["C14/tx/perform_outbound_step/write_current#1"])
+M("SEED-C15-e", ["C15"], [("@patch", "seeded/C15-e/patch.diff", "")], ["C15/replay/retained"])
+M("SEED-C17-e", ["C17"], [("@patch", "seeded/C17-e/patch.diff", "")], ["C17/quota/inflight-read-after-reset"])
+M("SEED-C18-e", ["C18"], [("@patch", "seeded/C18-e/patch.diff", "")], ["C18/ack/retained-removes-the-acknowledged-entry"])
+M("SEED-C19-e", ["C19"], [("@patch", "seeded/C19-e/patch.diff", "")], ["C19/dead/fatal-inbound/handle_packet#1"])
+M("SEED-C20-e", ["C20"], [("@patch", "seeded/C20-e/patch.diff", "")], ["C20/publication/with_properties-keeps-correlation"])
+
 # third round: property-centred behaviour-preserving refactorings (five per property, around that property's anchors)
 for _p in sorted(_glob.glob(_os.path.join(_os.path.dirname(_os.path.abspath(__file__)), "refactors", "rf3", "*.diff"))):
     RF("RF3-" + _os.path.basename(_p)[:-5], ALL19, [("@patch", "selftest/refactors/rf3/" + _os.path.basename(_p), "")])
@@ -1456,6 +1477,7 @@ M("RFM-negotiated-window-unclamped", ["C06"], [("@patch", "selftest/mutants_rf/n
 M("RFM-enumerate-index-over-skipped-iterator", ["C03"], [("@patch", "selftest/mutants_rf/enumerate-skip.diff", "")], ["C03/comp/removes-the-acknowledged-entry"])
 RF("RF-head-first-lookup-with-offset", ALL19, [("@patch", "selftest/refactors/RF-head-first-lookup.diff", "")])
 M("RFM-pass-enum-fresh-first", ["C01"], [("@patch", "selftest/mutants_rf/pass-enum-fresh-first.diff", "")], ["C01/priority/in-progress-first"])
+M("RFM-counter-plain-u16-no-zero-step", ["C07", "C01"], [("@patch", "selftest/mutants_rf/counter-plain-u16-no-zero-step.diff", "")], ["C07/nz/returns-nonzero", "C01/id-nz/returns-nonzero"])
 M("RFM-predicates-pending-ignores-generation", ["C18"], [("@patch", "selftest/mutants_rf/predicates-pending-ignores-generation.diff", "")], ["C18/status/table"])
 
 # fourth round: organisational refactorings (guard clauses, sub-borrows, loop forms, private structs, generic helpers)
@@ -1466,6 +1488,11 @@ for _p in sorted(_glob.glob(_os.path.join(_os.path.dirname(_os.path.abspath(__fi
 # structs and newtypes, fields moved between structs, functions <-> methods, per-arm functions behind a dispatcher)
 for _p in sorted(_glob.glob(_os.path.join(_os.path.dirname(_os.path.abspath(__file__)), "refactors", "rf5", "*.diff"))):
     RF("RF5-" + _os.path.basename(_p)[:-5], ALL19, [("@patch", "selftest/refactors/rf5/" + _os.path.basename(_p), "")])
+
+# sixth round: the round-5 seeds with their hidden defect repaired -- the same clean-up / hardening, behaviour preserved.
+# A check that caught the seed only because of the new *shape* raises a false alarm here.
+for _p in sorted(_glob.glob(_os.path.join(_os.path.dirname(_os.path.abspath(__file__)), "refactors", "rf6", "*.diff"))):
+    RF("RF6-" + _os.path.basename(_p)[:-5], ALL19, [("@patch", "selftest/refactors/rf6/" + _os.path.basename(_p), "")])
 
 
 # Behaviour-preserving refactorings on which a check is *known* to fail closed (documented in DESIGN.md §6.5 / §8): the
@@ -1494,9 +1521,6 @@ KNOWN_LIMITS = {
     "RF5-C09-02-ser-body-len-cursor": ("`MqttSerializer::index` (anchored state of C01.len) replaced by a body-length counter", ["C01/len/"]),
     "RF5-C08-03-deserializer-remaining-slice": ("`MqttDeserializer::{buf, index}` replaced by the remaining slice + total length: the new `split_at` / subtraction sites "
                                                 "have no entry in the panic-site discharge table", ["C08/panic/"]),
-    "RF5-C07-01-counter-plain-u16": ("the identifier counter loses its `NonZeroU16` type: the non-zero argument of C07 is by type, the arithmetic replacement "
-                                     "(`match n.wrapping_add(1) { 0 => 1, n => n }`) is not evaluated", ["C07/nz/"]),
-    # round 5: other documented limits
     "RF5-C03-05-pubrel-size-and-encode-as-methods": ("reference functions become methods with *different* parameter sets (serialize_pubrel over a step record, "
                                                      "check_pubrel_size on the entry type, queue_release taking a ready-made record): positional argument rules lose the sites",
                                                      ["C03/rel/id", "C03/wire/", "C04/offarena/", "C14/tx/"]),
